@@ -268,6 +268,16 @@ def _raised_in(e: BaseException) -> str:
     return last
 
 
+def _in_piecewise_eval(e: BaseException) -> bool:
+    tb = e.__traceback__
+    n = 0
+    while tb is not None:
+        if tb.tb_frame.f_code.co_filename.endswith("sympy/functions/elementary/piecewise.py") and tb.tb_frame.f_code.co_name == "eval":
+            n += 1
+        tb = tb.tb_next
+    return n >= 10
+
+
 def _conditional_inside_condition(src: str) -> bool:
     import ast
 
@@ -277,7 +287,46 @@ def _conditional_inside_condition(src: str) -> bool:
     return False
 
 
+def _ill_conditioned(case: dict, ctx, st0: dict) -> list[str]:
+    """Re-evaluate the original model with instrumented functions: which comparisons / roundings sat on their discontinuity?"""
+    from vlib import illcond
+
+    _n[0] += 1
+    modname = f"genpkg.m{_n[0]}_probe"
+    path = Path(ctx.extra["genpkg"]) / f"m{_n[0]}_probe.py"
+    path.write_text(illcond.instrument(case["src"]))
+    importlib.invalidate_caches()
+    try:
+        importlib.import_module(modname)
+        m = build(_bind(case["spec"], modname))
+        illcond.reset()
+        m.get_initial_conditions()
+        m.get_args()
+        m.get_args(dict(st0), 0.0)
+        m.get_right_hand_side(dict(st0), 0.0)
+        return illcond.ties()
+    finally:
+        sys.modules.pop(modname, None)
+        path.unlink(missing_ok=True)
+
+
 def examine(case: dict, ctx) -> Outcome:
+    out = _examine(case, ctx)
+    if any(sig.split(":")[0] in ("initial-value-differs", "parameter-value-differs", "flux-differs", "derived-value-differs", "derivative-differs") for sig, _ in out.verdicts):
+        try:
+            t = _ill_conditioned(case, ctx, case["state"])
+        except Exception:  # noqa: BLE001
+            t = []
+        if t:
+            # the original sits on a discontinuity (a tie inside a comparison, ceil of an integer up to rounding):
+            # either side is a faithful answer, the difference is not judged
+            out.verdicts = []
+            out.classes.append("mismatch-at-ill-conditioned-point:not-judged")
+            out.nontrivial = None
+    return out
+
+
+def _examine(case: dict, ctx) -> Outcome:
     from mxlpy import sbml
 
     out = Outcome()
@@ -304,7 +353,10 @@ def examine(case: dict, ctx) -> Outcome:
         except (ZeroDivisionError, OverflowError, ValueError, TypeError):
             out.skipped = "reference-undefined"
             return out
-        vals = np.array([float(v) for v in ref_args.to_numpy()] + [float(v) for v in ref_rhs.to_numpy()])
+        if any(isinstance(v, complex) for v in [*ref_ic.values(), *ref_pv.values()]):
+            out.skipped = "reference-undefined"
+            return out
+        vals = np.array([float(v) for v in ref_args.to_numpy()] + [float(v) for v in ref_rhs.to_numpy()] + [float(v) for v in ref_ic.values()] + [float(v) for v in ref_pv.values()])
         if not np.all(np.isfinite(vals)) or np.abs(vals).max() > 1e9:
             out.skipped = "reference-non-finite"
             return out
@@ -332,6 +384,9 @@ def examine(case: dict, ctx) -> Outcome:
                 # bucket by (type, innermost package frame, construct): the file is valid SBML, sympy's Piecewise
                 # cannot be built from a relational whose operand is itself a piecewise
                 out.bad(f"written-file-cannot-be-read:{type(e).__name__}:raised-in-sympy:conditional-inside-condition", error=repr(e)[:200], src=case["src"][-500:])
+            elif where == "sympy" and isinstance(e, RecursionError) and _in_piecewise_eval(e):
+                # sympy's Piecewise.eval never terminates on relations such as `k - pi > k - K` (same symbol on both sides, irrational offset)
+                out.bad("written-file-cannot-be-read:RecursionError:raised-in-sympy:Piecewise.eval-does-not-terminate", error=repr(e)[:200], src=case["src"][-500:])
             else:
                 out.bad(f"written-file-cannot-be-read:{type(e).__name__}:{root}", error=repr(e)[:200], raised_in=where, src=case["src"][-500:])
             return out
